@@ -68,11 +68,7 @@ Proof.
       destruct H as [H|[]]; injection H as <- <-; lia.
   - destruct (pos st); [|contradiction]. destruct H as [H|[]]; injection H as <- <-; lia.
   - destruct (pos st); [|contradiction]. destruct H as [H|[]]; injection H as <- <-; lia.
-  - destruct (after st) as [|x [|y l]]; try (destruct H as [H|[]]; injection H as <- <-; lia).
-    + destruct (N.eqb_spec x 10) as [->|Hn].
-      * destruct H as [H|[]]; injection H as <- <-; lia.
-      * destruct x as [|p]; try contradiction. repeat (destruct p as [p|p|]; try contradiction).
-    + destruct x as [|p]; try contradiction. repeat (destruct p as [p|p|]; try contradiction).
+  - destruct (at_end_b (after st)); [|contradiction]. destruct H as [H|[]]; injection H as <- <-; lia.
   - destruct (after st); [|contradiction]. destruct H as [H|[]]; injection H as <- <-; lia.
   - apply in_map_iff in H as [[s1 c1] [E H]]. cbn [fst snd] in E. injection E as <- <-. eapply IH; eassumption.
 Qed.
@@ -177,11 +173,7 @@ Proof.
       destruct H as [H|[]]; injection H as <- <-; exact Hc.
   - destruct (pos st); [|contradiction]. destruct H as [H|[]]; injection H as <- <-; exact Hc.
   - destruct (pos st); [|contradiction]. destruct H as [H|[]]; injection H as <- <-; exact Hc.
-  - destruct (after st) as [|x [|y l]]; try (destruct H as [H|[]]; injection H as <- <-; exact Hc).
-    + destruct (N.eqb_spec x 10) as [->|Hn].
-      * destruct H as [H|[]]; injection H as <- <-; exact Hc.
-      * destruct x as [|p]; try contradiction. repeat (destruct p as [p|p|]; try contradiction).
-    + destruct x as [|p]; try contradiction. repeat (destruct p as [p|p|]; try contradiction).
+  - destruct (at_end_b (after st)); [|contradiction]. destruct H as [H|[]]; injection H as <- <-; exact Hc.
   - destruct (after st); [|contradiction]. destruct H as [H|[]]; injection H as <- <-; exact Hc.
   - apply in_map_iff in H as [[s1 c1] [E H]]. cbn [fst snd] in E. injection E as <- <-.
     apply cap_cons_keep. eapply IH; eassumption.
